@@ -83,13 +83,13 @@ func (e *avg) Merge(b []byte, x []byte, y []byte) ([]byte, []byte, []byte) {
 }
 
 func (e *avg) SubMergers(subs []Expr) []SubMerge {
-	result := make([]SubMerge, 0, len(subs))
-	for _, sub := range subs {
-		var sm SubMerge
+	result := make([]SubMerge, len(subs))
+	for i, sub := range subs {
 		if e.String() == sub.String() {
-			sm = e.subMerge
+			// only the first match: a second field with the same expression holds the same data
+			result[i] = e.subMerge
+			break
 		}
-		result = append(result, sm)
 	}
 	return result
 }
